@@ -231,6 +231,12 @@ def tag_div(fa, fb):
     return "reduced-denominator=2^62" if (Fraction(fa) / Fraction(fb)).denominator == FIXMAX + 1 else "-"
 
 
+def tag_fixmin_div(a, b):
+    """sexp_quotient / sexp_remainder answer 0 / a for fixnum over bignum, assuming |a| < |b|; the one exception is
+    the most negative fixnum over the bignum 2^62."""
+    return "fixmin-over-2^62" if a == FIXMIN and abs(b) == FIXMAX + 1 else "-"
+
+
 def tag_intermediate(vs):
     """n-ary + and * fold from the left; an intermediate ratio with denominator 2^62 meets the same border."""
     return "intermediate-denominator=2^62" if any(Fraction(v).denominator == FIXMAX + 1 for v in vs) else "-"
@@ -346,10 +352,12 @@ def build_case(rng, op, a, b, c=0):
         if ib in (None, 0) or ia is None:
             return None
         x, e = "(%s a b)" % op, tdiv(ia, ib)
+        tag = tag_fixmin_div(ia, ib)
     elif op in ("remainder", "truncate-remainder"):
         if ib in (None, 0) or ia is None:
             return None
         x, e = "(%s a b)" % op, ia - ib * tdiv(ia, ib)
+        tag = tag_fixmin_div(ia, ib)
     elif op in ("modulo", "floor-remainder"):
         if ib in (None, 0) or ia is None:
             return None
@@ -371,6 +379,7 @@ def build_case(rng, op, a, b, c=0):
             return None
         q = tdiv(ia, ib)
         x, e = "(call-with-values (lambda () (truncate/ a b)) list)", [q, ia - ib * q]
+        tag = tag_fixmin_div(ia, ib)
     elif op == "gcd":
         if ia is None or ib is None:
             return None
@@ -560,6 +569,11 @@ def gen_division(rng):
     """a = q*d + r with word patterns that steer sexp_bignum_quot_rem: the estimate is (top two words of a) /
     (top two words of d) -- shifted by half a word when both top words are below 2^32 -- or, when that is 0,
     (top two words of a) / (top word of d); an overshoot flips the sign of the running remainder."""
+    if rng.random() < 0.04:
+        # fixnum / bignum border: |a| < |d| does not hold for -2^62 over 2^62
+        a = rng.choice([FIXMIN, FIXMIN, FIXMIN + 1, FIXMAX, -(FIXMAX + 1) - 1, FIXMAX + 1])
+        d = rng.choice([FIXMAX + 1, FIXMAX + 1, FIXMAX + 2, -(FIXMAX + 2), FIXMIN, FIXMAX])
+        return build_case(rng, rng.choice(DIV_OPS), a, d)
     dl = rng.choice([1, 2, 2, 2, 3, 3, 3, 4, 5, 8])
     d = rnd_words(rng, dl)
     style = rng.random()
@@ -837,7 +851,8 @@ def judge(rep, c, res):
         if isinstance(r, list) and len(r) == len(e):
             for i, sub in enumerate(c["subops"]):
                 if not same(r[i], e[i]):
-                    rep.violation(dict(sig0, op=sub, mode="wrong-result", via="lattice-multi"), wit)
+                    t = tag_fixmin_div(c["a"], c["b"]) if sub in ("quotient", "remainder", "modulo") else "-"
+                    rep.violation(dict(sig0, op=sub, tag=t, r=rclass(e[i]), mode="wrong-result", via="lattice-multi"), wit)
                     return
                 if isinstance(fixp, list) and len(fixp) == len(e) and fixp[i] != is_fix(e[i]):
                     rep.violation(dict(sig0, op=sub, mode="not-canonical-fixnum", via="lattice-multi"), wit)
@@ -937,7 +952,7 @@ def check(rep, tier, seed, variant="hooks", n=None, env_extra=None):
         if not chunk:
             return
         res, procs = C.run_batches(b, IMPORTS, "", [(c["id"], c["form"]) for c in chunk], batch=1000,
-                                   env_extra=env, timeout=180, heap="64M/512M", prelude=PRELUDE)
+                                   env_extra=env, timeout=(60 if tier == "quick" else 180), heap="64M/512M", prelude=PRELUDE)
         for c in chunk:
             rep.case(case_sig(c))
             rep.count("cases_" + c["src"])
